@@ -700,6 +700,15 @@ func runC03(w *explore.Worker) {
 	if p := os.Getenv("VERIF_WORKER_OUT"); p != "" {
 		c03Watchdog(w, p)
 	}
+	if vrt.RaceEnabled {
+		// the race-oracle pass has a short budget and the corpus would use all of it: the scenarios with real
+		// concurrency between connections (the accept loop, one reference number on two transfer connections, account
+		// changes against a half-open connection) go first there
+		for _, sc := range []string{"SC2", "SC3", "SC1"} {
+			c03Current = ""
+			explore.ExploreSchedules(w, explore.SchedConfig{Harness: "C03" + sc, Bound: 1, FreeCost: 1, MaxSteps: 50000, Suspend: true}, c03Scenario(sc))
+		}
+	}
 	// the mutation corpus first: the scenario exploration below gets whatever budget is left
 	cs := c03Cases(w.Thorough)
 	for i, c := range cs {
